@@ -1089,4 +1089,40 @@ example : (Ecs.step ⟨0, false⟩ (Ecs.runUp ⟨0, false⟩ exUp Store.empty [.
 
 end Agd.Cache
 #print axioms Agd.Tie.TrC04.translation_complete
+#print axioms Agd.Tie.TrC04.ts_true
 #print axioms Agd.Tie.TrC04.roundDiv_tr
+#print axioms Agd.Tie.TrC04.roundDiv_sec
+#print axioms Agd.Tie.TrC04.respIsECSDependent_tr
+#print axioms Agd.Tie.TrC04.ecs_isCacheable_tr
+#print axioms Agd.Tie.TrC04.simple_isCacheable_same
+#print axioms Agd.Tie.TrC04.dnsmsg_getTTLIfLower_tr
+#print axioms Agd.Tie.TrC04.simple_getTTLIfLower_same
+#print axioms Agd.Tie.TrC04.prepStore_life
+#print axioms Agd.Tie.TrC04.lifeOf_cast
+#print axioms Agd.Tie.TrC04.simple_set_skips
+#print axioms Agd.Tie.TrC04.simple_expiry
+#print axioms Agd.Tie.TrC04.simple_set_tr
+#print axioms Agd.Tie.TrC04.ecs_set_skips
+#print axioms Agd.Tie.TrC04.ecs_expiry
+#print axioms Agd.Tie.TrC04.ecs_set_tr
+#print axioms Agd.Tie.TrC04.ttl_val
+#print axioms Agd.Tie.TrC04.ttl_zero
+#print axioms Agd.Tie.TrC04.fromCacheItem_tr
+#print axioms Agd.Tie.TrC04.fromCacheItem_no_panic
+#print axioms Agd.Tie.TrC04.ecs_get_tr
+#print axioms Agd.Tie.TrC04.isCacheable_only_complete
+#print axioms Agd.Tie.TrC04.getTTLIfLower_le
+#print axioms Agd.Tie.TrC04.itemFromCache_miss
+#print axioms Agd.Tie.TrC04.itemFromCache_hit
+#print axioms Agd.Tie.TrC04.itemFromCache_no_panic
+#print axioms Agd.Tie.TrC04.simple_set_stores
+#print axioms Agd.Tie.TrC04.servfail_not_overridden
+#print axioms Agd.Tie.TrC04.simple_set_no_panic
+#print axioms Agd.Tie.TrC04.ecs_set_stores
+#print axioms Agd.Tie.TrC04.get_noecs_hit
+#print axioms Agd.Tie.TrC04.get_declined_miss
+#print axioms Agd.Tie.TrC04.get_ecs_lookup
+#print axioms Agd.Tie.TrC04.get_no_panic
+#print axioms Agd.Tie.TrC04.upstream_store_order
+#print axioms Agd.Tie.TrC04.upstream_bad_ecs_not_stored
+#print axioms Agd.Tie.TrC04.upstream_no_panic
